@@ -219,7 +219,7 @@ def enumerate_specs(tier, seed=0):
     else:
         add(gen_programs(2, 1, UNARY, BINARY), 2, masks2 + [(0, 0)])
         add(gen_programs(2, 2, UNARY, BINARY), 2, masks2)
-        add(gen_programs(2, 3, UNARY_SMALL, BINARY_SMALL), 2, masks2, 0.5)
+        add(gen_programs(2, 3, UNARY_SMALL, BINARY_SMALL), 2, masks2, 0.25)
         add(gen_programs(3, 2, UNARY_SMALL, BINARY_SMALL), 3, [(1, 1, 1), (1, 0, 1)], 1.0)
         add(gen_programs(2, 4, ["exp", "unbind_mul"], ["add", "mul"]), 2, [(1, 1)], 0.05)
     # hand-written shapes the statement names: diamond, paths of different length, same tensor twice in one op
@@ -244,13 +244,14 @@ def build(spec):
 def main(tier, seed):
     t0 = time.time()
     specs = enumerate_specs(tier, seed)
-    results = runner.run_pool(__name__, specs, tier, seed)
+    results = runner.run_pool(__name__, specs, tier, seed, limit=120 if tier == "quick" else 240,
+                              optkw={"timeout_ms": 10000 if tier == "quick" else 30000})
     return runner.finish(
         PROP, tier, seed, results, t0,
         bounds={"leaves": "2 (3 in part of the thorough tier), shape (2,2)", "op nodes": "<= 3 (quick) / <= 4 (thorough)",
                 "alphabet": {"unary": UNARY, "binary": BINARY},
                 "enumeration": "all live 1-node programs; 2- and 3-node programs exhaustively generated then sampled with "
-                               "VERIF_SEED (quick: 12% / 3%; thorough: 100% / 50%)"},
+                               "VERIF_SEED (quick: 12% / 3%; thorough: 100% / 25%)"},
         assumptions=["floats are reals", "relu kinks outside the claim",
                      "programs whose forward raises (shape mismatch) are outside the program space"],
         stubs=["BackwardFunction.__call__ wrapped from outside to log invocations"],
